@@ -216,7 +216,8 @@ func VerifC13_AddLookDelLook() { verifC13(4, []int{0, 2, 1, 2}) }
 
 // the other regex configurations (see verifRegexCfgs), symbolic choice
 func VerifC13_Regexes() { verifC13Cfg(2, []int{0, 2}, nondetIntIn(1, 4)) }
-func VerifC13_RegexesUpd() { verifC13Cfg(4, []int{0, 2, 0, 2}, nondetIntIn(1, 4)) }
+func VerifC13_RegexesUpd() { verifC13Cfg(4, []int{0, 2, 0, 2}, nondetIntIn(1, 3)) }
+func VerifC13_RegexesUpdBoth() { verifC13Cfg(4, []int{0, 2, 0, 2}, 4) }
 
 func VerifC13_Twin() {
 	verifC13(2, nil)
